@@ -95,8 +95,14 @@ def roles(prog: Program) -> Roles:
     if ex is not None:
         for n in ast.walk(ex):
             if isinstance(n, ast.Assign) and isinstance(n.value, ast.Call) and isinstance(n.value.func, ast.Attribute) \
-                    and n.value.func.attr == "fetch_arrow_table" and _self_attr(n.targets[0]):
-                r["table"] = _self_attr(n.targets[0])
+                    and n.value.func.attr == "fetch_arrow_table":
+                if _self_attr(n.targets[0]):
+                    r["table"] = _self_attr(n.targets[0])
+                elif isinstance(n.targets[0], ast.Name):
+                    # fetched into a local first: the attribute the local is stored into
+                    for n2 in ast.walk(ex):
+                        if isinstance(n2, ast.Assign) and isinstance(n2.value, ast.Name) and n2.value.id == n.targets[0].id and _self_attr(n2.targets[0]):
+                            r["table"] = _self_attr(n2.targets[0])
     # fetch index: the attribute used as the slice offset in the slicing method
     fm = fn("fetchmany")
     if fm is not None:
